@@ -169,3 +169,13 @@ func init() {
 		LevelText: "fault enumeration over outcomes and orders of the get and query requests of small query sets, executed completely in the thorough tier",
 		LevelNote: "trusted base: reference query service, VerifSnapshot hook, exact partial quiescence"})
 }
+
+func init() {
+	add(&Prop{ID: "C20", Level: "fault_enumeration", Shards: 16, RaceShards: 8, CrashIsViol: true,
+		Technique:   "runtime monitoring with fault injection: Stop / loss of the messaging system injected at every step of setups with idle connections, outstanding requests, HTTP requests, a connection in the header-auth phase and pending evictions; client sockets, admission of new requests (also while the messaging client is still closing), the stop channel and restart are observed; a crash of the worker process is itself a violation",
+		Rule:        "enumeration of {idle, outstanding, mixed, http, upgrade (registered connection without socket), pending eviction} x {Service.Stop(nil), closed handler with an error} x {messaging client closes at once, closes slowly with WebSocket and HTTP probes sent while stopping} x answer progress 0..6, each for up to three Start/Stop cycles on the same Service; required: Stop returns before the 25 s watchdog, every client socket closed, new WebSocket refused and HTTP answered 503 during and after stopping, the stop channel delivers exactly the injected cause, Start works again; every case is non-trivial and distinct by construction",
+		Assumptions: []string{"like the real adapter, SimBus never invokes a completion after Close has returned", "a WebSocket upgrade stuck in header authentication when the messaging system goes away cannot complete; it is tolerated as long as it serves nothing"},
+		DesignRef:   "DESIGN.md §4 C20",
+		LevelText:   "fault enumeration over fault kind, position and shutdown speed; crash freedom is observed per worker process",
+		LevelNote:   "trusted base: SimBus closed-handler and Close-gate emulation, wall-clock watchdogs only ever yield 'inconclusive'"})
+}
